@@ -353,7 +353,7 @@ func (s *c22Stack) snapshot(buckets []string) (string, error) {
 // ---- operations ----
 
 type c22op struct {
-	Kind      string            `json:"kind"` // put copy complete delete delete-version multi-delete tag untag transition lc-expire lc-transition
+	Kind      string            `json:"kind"` // put copy complete delete delete-version multi-delete tag untag transition lc-expire lc-expire-version lc-transition
 	Bucket    string            `json:"bucket"`
 	Key       string            `json:"key"`
 	SrcBucket string            `json:"src_bucket,omitempty"`
@@ -364,7 +364,20 @@ type c22op struct {
 	Class     string            `json:"class,omitempty"`
 	Version   string            `json:"version,omitempty"`
 	Seed      uint64            `json:"seed,omitempty"`
-	uploadID  *storage.UploadId
+	// TargetIsMarker: the version addressed by delete-version is a delete marker
+	TargetIsMarker bool `json:"target_is_delete_marker,omitempty"`
+	uploadID       *storage.UploadId
+}
+
+// label is the operation class used in signatures and counters.
+func (o *c22op) label() string {
+	if o.Kind == "delete-version" && o.TargetIsMarker {
+		return "delete-marker-version"
+	}
+	if o.Kind == "lc-expire-version" && o.TargetIsMarker {
+		return "lc-expire-marker-version"
+	}
+	return o.Kind
 }
 
 func (o *c22op) storageCall() string {
@@ -375,7 +388,7 @@ func (o *c22op) storageCall() string {
 		return "CopyObject"
 	case "complete":
 		return "CompleteMultipartUpload"
-	case "delete", "delete-version", "lc-expire":
+	case "delete", "delete-version", "lc-expire", "lc-expire-version":
 		return "DeleteObject"
 	case "multi-delete":
 		return "DeleteObjects"
@@ -407,6 +420,9 @@ func (s *c22Stack) plannedEvents(o *c22op) []rowKey {
 		return []rowKey{ev("s3:ObjectRemoved:Delete", o.Key)}
 	case "delete-version":
 		return []rowKey{ev("s3:ObjectRemoved:Delete", o.Key)}
+	case "lc-expire-version":
+		// lifecycle removing one version (noncurrent expiration, expired delete marker): a permanent delete
+		return []rowKey{ev("s3:LifecycleExpiration:Delete", o.Key)}
 	case "multi-delete":
 		var out []rowKey
 		for _, k := range o.Keys {
@@ -460,6 +476,10 @@ func (s *c22Stack) exec(o *c22op) error {
 	case "delete-version":
 		v := o.Version
 		_, err := s.mw.DeleteObject(ctx, b, k, &storage.DeleteObjectOptions{VersionID: &v})
+		return err
+	case "lc-expire-version":
+		v := o.Version
+		_, err := s.mw.DeleteObject(storage.WithNotificationEventOverride(ctx, "s3:LifecycleExpiration:Delete"), b, k, &storage.DeleteObjectOptions{VersionID: &v})
 		return err
 	case "multi-delete":
 		var es []storage.DeleteObjectsInputEntry
@@ -529,7 +549,7 @@ func (h *c22History) genOp() *c22op {
 	for tries := 0; tries < 50; tries++ {
 		b := h.buckets[[]int{0, 1, 1, 2, 2, 2, 2, 3, 3, 3}[rg.Intn(10)]]
 		lk := h.liveKeys(b)
-		kind := vkit.Pick(rg, []string{"put", "put", "put", "copy", "complete", "delete", "delete", "delete-version", "multi-delete", "tag", "untag", "transition", "lc-expire", "lc-transition"})
+		kind := vkit.Pick(rg, []string{"put", "put", "put", "copy", "complete", "delete", "delete", "delete-version", "delete-version", "lc-expire-version", "multi-delete", "tag", "untag", "transition", "lc-expire", "lc-transition"})
 		o := &c22op{Kind: kind, Bucket: b, Key: vkit.Pick(rg, c22Keys), Seed: rg.Uint64()}
 		switch kind {
 		case "put":
@@ -564,25 +584,29 @@ func (h *c22History) genOp() *c22op {
 				o.Class = vkit.Pick(rg, []string{"STANDARD_IA", "GLACIER", "ONEZONE_IA"})
 			}
 			return o
-		case "delete-version":
-			if h.s.vers[b] == "off" || len(lk) == 0 {
+		case "delete-version", "lc-expire-version":
+			if h.s.vers[b] == "off" {
 				continue
 			}
-			o.Key = vkit.Pick(rg, lk)
-			res, err := h.s.real.ListObjectVersions(h.s.ctx, storage.MustNewBucketName(b), storage.ListObjectVersionsOptions{Prefix: &o.Key, MaxKeys: 1000})
-			if err != nil {
+			// any stored version of any key of the bucket, delete markers preferred half of the time
+			res, err := h.s.real.ListObjectVersions(h.s.ctx, storage.MustNewBucketName(b), storage.ListObjectVersionsOptions{MaxKeys: 1000})
+			if err != nil || len(res.Versions) == 0 {
 				continue
 			}
-			var ids []string
-			for _, v := range res.Versions {
-				if v.Key.String() == o.Key {
-					ids = append(ids, v.VersionID)
+			cands := res.Versions
+			if rg.Bool() {
+				var ms []storage.ObjectVersion
+				for _, v := range res.Versions {
+					if v.IsDeleteMarker {
+						ms = append(ms, v)
+					}
+				}
+				if len(ms) > 0 {
+					cands = ms
 				}
 			}
-			if len(ids) == 0 {
-				continue
-			}
-			o.Version = ids[rg.Intn(len(ids))]
+			v := cands[rg.Intn(len(cands))]
+			o.Key, o.Version, o.TargetIsMarker = v.Key.String(), v.VersionID, v.IsDeleteMarker
 			return o
 		case "multi-delete":
 			if len(lk) < 2 {
@@ -737,7 +761,7 @@ func (h *c22History) runMutation(o *c22op) {
 			h.failed = fmt.Sprintf("observe: %v %v", serr, rerr)
 			return
 		}
-		r.Eval(fmt.Sprintf("%s|%s|v=%s|rows=%d|%s#%d", o.Kind, s.vers[o.Bucket], v.Name, len(want), v.Class, v.N))
+		r.Eval(fmt.Sprintf("%s|%s|v=%s|rows=%d|%s#%d", o.label(), s.vers[o.Bucket], v.Name, len(want), v.Class, v.N))
 		if v.Name != "clean" {
 			if !fired {
 				r.Count("faults.armed-but-not-reached."+v.Name, 1)
@@ -749,9 +773,9 @@ func (h *c22History) runMutation(o *c22op) {
 				}
 			}
 			r.Count("faults.injected."+v.Name, 1)
-			r.Count("faults.injected.by-op."+o.Kind, 1)
+			r.Count("faults.injected.by-op."+o.label(), 1)
 			if err == nil {
-				h.violation("fault-swallowed:"+v.Class+":"+o.Kind, fmt.Sprintf("%s returned success although %s was injected", o.Kind, v.Name), o, map[string]any{"variant": v, "new_rows": rows})
+				h.violation("fault-swallowed:"+v.Class+":"+o.label(), fmt.Sprintf("%s returned success although %s was injected", o.Kind, v.Name), o, map[string]any{"variant": v, "new_rows": rows})
 				h.checkCommitted(o, want, rows, before, after, v)
 				return
 			}
@@ -759,11 +783,11 @@ func (h *c22History) runMutation(o *c22op) {
 				r.Count("faults.error-not-the-injected-one", 1)
 			}
 			if after != before {
-				h.violation("rollback-incomplete:"+v.Class+":"+o.Kind, fmt.Sprintf("%s failed (%v) but the object state changed", o.Kind, err), o, map[string]any{"variant": v, "state_before": before, "state_after": after})
+				h.violation("rollback-incomplete:"+v.Class+":"+o.label(), fmt.Sprintf("%s failed (%v) but the object state changed", o.Kind, err), o, map[string]any{"variant": v, "state_before": before, "state_after": after})
 				before = after
 			}
 			if len(rows) > 0 {
-				h.violation("row-without-commit:"+v.Class+":"+o.Kind, fmt.Sprintf("%s failed (%v) but %d outbox row(s) were committed", o.Kind, err, len(rows)), o, map[string]any{"variant": v, "new_rows": rows})
+				h.violation("row-without-commit:"+v.Class+":"+o.label(), fmt.Sprintf("%s failed (%v) but %d outbox row(s) were committed", o.Kind, err, len(rows)), o, map[string]any{"variant": v, "new_rows": rows})
 				h.accept(rows)
 			}
 			r.Count("faults.rolled-back-clean."+v.Name, 1)
@@ -781,18 +805,18 @@ func (h *c22History) runMutation(o *c22op) {
 
 func (h *c22History) checkCommitted(o *c22op, want []rowKey, rows []outRow, before, after string, v c22variant) {
 	r := h.s.r
-	r.Count("mutations.committed."+o.Kind, 1)
+	r.Count("mutations.committed."+o.label(), 1)
 	if after == before {
 		r.Count("observations.committed-without-visible-state-change."+o.Kind, 1)
 	}
 	missing, extra := diffRows(want, rows)
 	for _, m := range missing {
 		ev := strings.Fields(m)[1]
-		h.violation("row-missing:"+o.Kind+":"+ev, "committed mutation without its outbox row: "+m, o, map[string]any{"variant": v, "expected_rows": want, "new_rows": rows})
+		h.violation("row-missing:"+o.label()+":"+ev, "committed mutation without its outbox row: "+m, o, map[string]any{"variant": v, "expected_rows": want, "new_rows": rows})
 	}
 	for _, e := range extra {
 		ev := strings.Fields(e)[1]
-		h.violation("row-unexpected:"+o.Kind+":"+ev, "outbox row that no matching rule / committed event explains: "+e, o, map[string]any{"variant": v, "expected_rows": want, "new_rows": rows})
+		h.violation("row-unexpected:"+o.label()+":"+ev, "outbox row that no matching rule / committed event explains: "+e, o, map[string]any{"variant": v, "expected_rows": want, "new_rows": rows})
 	}
 	for _, row := range rows {
 		r.Count("rows.by-event."+row.Event, 1)
@@ -1213,12 +1237,7 @@ func runC22(tier, replay string) {
 				ok = true
 			}
 		}
-		if ok {
-			fmt.Println("replay: reproduced")
-		} else {
-			fmt.Println("replay: not reproduced")
-		}
-		r.Finish()
+		finishReplay(r, ok)
 	}
 
 	var wg sync.WaitGroup
